@@ -158,7 +158,7 @@ theorem slice_of_ordered : Statement_slice_of_ordered := by
     occurrence), whose aggregates have been fed exactly the solutions with that key, in order; every solution
     falls into exactly one group.  (Zero solutions: the single row without bindings of W3C test agg-empty-group.) -/
 def Statement_group_partition : Prop :=
-  ∀ (w : Nat) (ks : List Nat) (A : List AggSpec) (rows : List Row),
+  ∀ (w : Nat) (ks : List Expr) (A : List AggSpec) (rows : List Row),
     aggregateJoin w (some ks) A rows =
       (if rows = [] then [emptyRow w]
        else (firstOcc (rows.map (keyOf ks))).map
@@ -503,7 +503,7 @@ theorem rewrite_correct : Statement_rewrite_correct := by
 
 /-- non-vacuity: `SELECT ?g (SUM(?v) + 1 AS ?x) … GROUP BY ?g HAVING (COUNT(?v) > 1) ORDER BY DESC(?x) COUNT(?v)` -/
 def exQuery : Query :=
-  { nuser := 3, groupAs := [], group := some [0],
+  { nuser := 3, groupAs := [], group := some [.var 0],
     proj := [.var 0, .expr 2 (.add (.agg .sum false false (.var 1) none) (.const (.num .integer 1 0)))],
     having := some (.cmp .gt (.agg .count false false (.var 1) none) (.const (.num .integer 1 0))),
     order := [(.var 2, true), (.agg .count false false (.var 1) none, false)],
